@@ -10,8 +10,14 @@ open Dashu.Props.C05
 #print axioms cmp_wrong_without_canon
 #print axioms producers_canonical
 #print axioms signed_producers_canonical
+#print axioms history_canonical
+#print axioms history_values
+#print axioms history_eq_cmp_hash
 #print axioms float_cmp
 #print axioms float_cmp_needs_precision_bound
+#print axioms float_results_fit
+#print axioms float_cmp_of_results
+#print axioms float_spare_digit_occurs
 #print axioms float_normalize
 #print axioms float_eq_iff_cmp_equal
 #print axioms ratio_cmp
